@@ -336,12 +336,88 @@ def signature_of(oid, case, v):
     return info.get('signature') or '%s:%s:%s' % (oid, case, v['label'])
 
 
-def drive_cases(oid, cases, res=None, budget_s=None):
-    """Explore every case with symx; replay every model concretely."""
+_CASES = None
+
+
+def _case_worker(args):
+    idx, oid, tmo = args
     from vt import symx
+    symx._CUR = None
+    case = _CASES[idx]
+    case.shard_depth = 0          # pool workers cannot fork again
+    r = Result()
+    _drive_one(oid, case, r, tmo)
+    return r.to_json()
+
+
+def _drive_one(oid, case, res, tmo):
+    from vt import symx
+    fn = _wrap(case.fn)
+    sm = explore_case(case, fn, tmo)
+    n0 = len(res.violations)
+    res.add_summary(sm, case=case.name, needed=case.needed)
+    if sm.get('shards'):
+        res.notes.append('%s: %d shards' % (case.name, sm['shards']))
+    seen = set()
+    for v in res.violations[n0:]:
+        v['signature'] = signature_of(oid, case.name, v)
+        key = (v['signature'], v['label'])
+        if key in seen:
+            v['duplicate'] = True
+            continue
+        seen.add(key)
+        ce = symx.ConcreteEngine(v['model'])
+        try:
+            ce.run(fn)
+            v['reproduced'] = v['label'] in ce.failed
+            v['replay_failed_labels'] = ce.failed[:5]
+        except BaseException as e:  # noqa
+            v['reproduced'] = False
+            v['replay_error'] = repr(e)[:300]
+        res.replays += 1
+        if v['reproduced'] and case.strong_replay is not None:
+            try:
+                ok, text = case.strong_replay(v['model'])
+                v['strong_replay'] = {'reproduced': bool(ok), 'text': text}
+                if not ok:
+                    v['reproduced'] = False
+            except BaseException as e:  # noqa
+                v['strong_replay'] = {'reproduced': False,
+                                      'text': repr(e)[:300]}
+                v['reproduced'] = False
+    res.violations[n0:] = [v for v in res.violations[n0:]
+                           if not v.get('duplicate')]
+    for v in res.violations[n0:]:
+        # keep evidence small / picklable
+        info = v.get('info') or {}
+        for k in list(info):
+            if callable(info[k]):
+                info.pop(k)
+
+
+def drive_cases(oid, cases, res=None, budget_s=None, procs=14):
+    """Explore every case with symx; replay every model concretely.  Cases
+    without their own sharding run in parallel (fork pool)."""
+    global _CASES
     res = res or Result()
+    cases = list(cases)
     t_end = time.time() + budget_s if budget_s else None
-    for case in cases:
+    par = [c for c in cases if not c.shard_depth]
+    seq = [c for c in cases if c.shard_depth]
+    if len(par) > 1:
+        import multiprocessing
+        _CASES = par
+        ctx = multiprocessing.get_context('fork')
+        jobs = [(i, oid, min(c.timeout_s, budget_s) if c.timeout_s and
+                 budget_s else (c.timeout_s or budget_s))
+                for i, c in enumerate(par)]
+        with ctx.Pool(min(procs, len(jobs))) as pool:
+            outs = pool.map(_case_worker, jobs, chunksize=1)
+        for o in outs:
+            _merge_result(res, o)
+    else:
+        seq = par + seq
+    for case in seq:
         tmo = case.timeout_s
         if t_end is not None:
             left = t_end - time.time()
@@ -351,43 +427,25 @@ def drive_cases(oid, cases, res=None, budget_s=None):
                 res.exhaustive = False
                 continue
             tmo = min(tmo, left) if tmo else left
-        fn = _wrap(case.fn)
-        sm = explore_case(case, fn, tmo)
-        n0 = len(res.violations)
-        res.add_summary(sm, case=case.name, needed=case.needed)
-        if sm.get('shards'):
-            res.notes.append('%s: %d shards' % (case.name, sm['shards']))
-        seen = set()
-        for v in res.violations[n0:]:
-            v['signature'] = signature_of(oid, case.name, v)
-            key = (v['signature'], v['label'])
-            if key in seen:
-                v['duplicate'] = True
-                continue
-            seen.add(key)
-            ce = symx.ConcreteEngine(v['model'])
-            try:
-                ce.run(fn)
-                v['reproduced'] = v['label'] in ce.failed
-                v['replay_failed_labels'] = ce.failed[:5]
-            except BaseException as e:  # noqa
-                v['reproduced'] = False
-                v['replay_error'] = repr(e)[:300]
-            res.replays += 1
-            if v['reproduced'] and case.strong_replay is not None:
-                try:
-                    ok, text = case.strong_replay(v['model'])
-                    v['strong_replay'] = {'reproduced': bool(ok),
-                                          'text': text}
-                    if not ok:
-                        v['reproduced'] = False
-                except BaseException as e:  # noqa
-                    v['strong_replay'] = {'reproduced': False,
-                                          'text': repr(e)[:300]}
-                    v['reproduced'] = False
-        res.violations[n0:] = [v for v in res.violations[n0:]
-                               if not v.get('duplicate')]
+        _drive_one(oid, case, res, tmo)
     return res
+
+
+def _merge_result(res, o):
+    for k in ('paths', 'queries', 'solver_s', 'checks', 'checks_unsat',
+              'cases', 'replays'):
+        setattr(res, k, getattr(res, k) + o[k])
+    res.exhaustive = res.exhaustive and o['exhaustive']
+    res.inconclusive += o['inconclusive']
+    res.violations += o['violations']
+    res.notes += o['notes']
+    for k in ('witnesses_needed', 'witnesses_found'):
+        for w in o[k]:
+            if w not in getattr(res, k):
+                getattr(res, k).append(w)
+    for s_ in o['samples']:
+        if len(res.samples) < 4:
+            res.samples.append(s_)
 
 
 def replay_case(cases, case_name, model):
@@ -410,15 +468,27 @@ def run_strong_test(name, timeout=300, env_extra=None):
     env = dict(os.environ)
     env.update(env_extra or {})
     env.pop('PYTHONPATH', None)
+    os.makedirs(os.path.join(VERIF, 'work'), exist_ok=True)
+    logp = os.path.join(VERIF, 'work', 'strong-%s-%d.log'
+                        % (name.replace('/', '_'), os.getpid()))
+    # output goes to a file: engine fixtures leave non-daemon threads that
+    # would keep a pipe open after the test has finished
+    with open(logp, 'wb') as logf:
+        try:
+            subprocess.run(
+                ['timeout', '-s', 'KILL', str(timeout), '/venv/bin/python',
+                 '-m', 'pytest', '-q', '-p', 'no:cacheprovider', '-x', '-s',
+                 path],
+                cwd=REPO, env=env, stdout=logf, stderr=subprocess.STDOUT,
+                timeout=timeout + 30)
+        except subprocess.TimeoutExpired:
+            pass
+    with open(logp, 'rb') as f:
+        out = f.read().decode('utf8', 'replace')
     try:
-        p = subprocess.run(
-            ['timeout', str(timeout), '/venv/bin/python', '-m', 'pytest',
-             '-q', '-p', 'no:cacheprovider', '-x', '-s', path],
-            cwd=REPO, env=env, stdout=subprocess.PIPE,
-            stderr=subprocess.STDOUT, timeout=timeout + 30)
-        out = p.stdout.decode('utf8', 'replace')
-    except subprocess.TimeoutExpired:
-        return False, 'strong replay timed out'
+        os.unlink(logp)
+    except OSError:
+        pass
     tail = '\n'.join(l for l in out.splitlines()
                      if 'STRONG' in l or 'passed' in l or 'failed' in l
                      or 'AssertionError' in l)[-1500:]
